@@ -151,3 +151,8 @@ package phase4
 //@   requires n != nil && (dir == left || dir == right)
 //@   requires dir == right ==> 0 <= n.LayerPos - 1 && n.LayerPos - 1 < len(nodes)
 //@   requires dir == left ==> 0 <= n.LayerPos + 1 && n.LayerPos + 1 < len(nodes)
+
+// setColor (sink colouring): the scan for a viable in-edge stays inside n.In
+//@ func setColor
+//@   loop for(e==nil||e.SelfLoops()||e.IsFlat())#1
+//@     invariant 0 <= i
